@@ -13,7 +13,9 @@ namespace QF.Props.C18
 theorem toUpper_spec (up : Char → Char) (bufLen : Nat) (s : List Char) : U.toUpper up bufLen s = U.spec up s :=
   U.toUpper_spec' up bufLen s
 
-/-- T1: the functions this property's mirror model follows have today the source text the model was written against. -/
-theorem tie : Tie.sameAll ["strings.ToUpper", "strings.NewMatcher", "scolumn.regexFilter", "ecolumn.filterLike"] = true := by decide
+/-- T1: the functions this property's mirror model follows have today the source text the model was written against.
+`strings.NewMatcher` (and the `Matches` methods) are no longer compared as text: their meaning is regenerated as
+`Gen.newMatcher` and proved equal to the mirror in `QF.Props.C18Matcher.gen_newmatcher_semantics`. -/
+theorem tie : Tie.sameAll ["strings.ToUpper", "scolumn.regexFilter", "ecolumn.filterLike"] = true := by decide
 
 end QF.Props.C18
